@@ -238,7 +238,55 @@ def rule_exit_code(ck):
     ck.ob("table.exit_code", "apply_new_status/only-main-thread-exit-ends-the-process", bool(pp) and bool(aggs) and any(f.dominates(c.bb, aggs[0][0]) for c in pp), "", f.loc())
 
 
+CHILD = "debugger::process::Child"
+
+
+def rule_external_flag(ck):
+    prog = ck.prog
+    ck.rule("table.external_flag", "Child.external_info (what Drop / detach use to tell an attached process from a launched one) is Some exactly in the constructor that attaches to an existing pid and a literal None in every constructor that describes or forks a process of the debugger's own; nothing else writes the field; is_external() is external_info.is_some()", exhaustive=True)
+    sites = []
+    for p, f in prog.fns.items():
+        if not p.startswith("debugger::"):
+            continue
+        for i, j, pl, rv, sp in f.assigns():
+            if rv["r"] == "agg" and rv["name"] == CHILD:
+                flds = dict(zip(rv.get("fields", []), rv["ops"]))
+                sites.append((f, i, flds))
+    keyed = keyed_sites(sites, lambda x: short(owner_fn(x[0].path)))
+    ck.floor("table.external_flag", "Child constructions", len(sites), 3)
+    for key, (f, i, flds) in keyed:
+        ck.saw(f)
+        e = expr_of(f, flds["external_info"], depth=6) if "external_info" in flds else ("unknown",)
+        is_none = e[0] == "agg" and e[3] == "None" and not e[4]
+        is_some = e[0] == "agg" and e[3] == "Some"
+        forks = any(c.name.endswith("unistd::fork") for c in f.calls())
+        attaches = any(re.search(r"ptrace::(attach|seize)$", c.name) for c in f.calls()) and not forks
+        if attaches:
+            ck.ob("table.external_flag", f"{key}/attached=>Some", is_some, f"external_info = {expr_str(e, 3)}", f.loc(i), what="an attached process is not marked external: quit would kill it")
+        else:
+            ck.ob("table.external_flag", f"{key}/own-process=>None", is_none, f"external_info = {expr_str(e, 4)}", f.loc(i), what="a process the debugger forks/describes inherits or gains the `external` mark: quit would detach and leave it running")
+    writers = []
+    for p, f in prog.fns.items():
+        if not p.startswith(("debugger::", "ui::", "dap::")):
+            continue
+        for i, j, pl, rv, sp in f.assigns():
+            if any(isinstance(x, str) and x == ".external_info" for x in pl[1:]) and pl[-1] == ".external_info":
+                writers.append(f.path)
+        for c in f.calls():
+            if re.search(r"Option::<T>::(take|replace|insert|get_or_insert|get_or_insert_with)$", c.name) and ".external_info" in expr_str(expr_of(f, c.args[0]), 4):
+                writers.append(f.path)
+    ck.ob("table.external_flag", "no-other-writer", not writers, f"{sorted(set(short(w) for w in writers))}", "src/debugger/process.rs")
+    ie = [f for p, f in prog.fns.items() if p.endswith("::is_external") and "process::Child" in p]
+    if ck.ob("table.external_flag", "is_external/exists", len(ie) == 1, "", ""):
+        f = ie[0]
+        ck.saw(f)
+        cs = [c for c in f.calls()]
+        ok = len(cs) == 1 and cs[0].name.endswith("Option::<T>::is_some") and ".external_info" in expr_str(expr_of(f, cs[0].args[0]), 4)
+        ck.ob("table.external_flag", "is_external=external_info.is_some()", ok, "", f.loc())
+
+
 def run(ck):
+    rule_external_flag(ck)
     rule_drop(ck)
     rule_restart(ck)
     rule_exit_code(ck)
